@@ -16,7 +16,7 @@ THEOREMS = {"Artap.Props.C13": [
     "C13_fullfact_index_bijective", "C13_fullfact_bijective",
     "C13_pb_structure", "C13_pb_levels", "C13_pb_rejects",
     "C13_bb_structure", "C13_bb_levels",
-    "C13_gsd_partition", "C13_gsd_complementary", "C13_gsd_generate_subset"]}
+    "C13_gsd_partition", "C13_gsd_complementary", "C13_gsd_succeeds", "C13_gsd_generate_subset"]}
 AXIOMS_OK = []
 TRUSTED = [
     "Coq 8.16.1 kernel, vm_compute (the 23 Plackett-Burman sizes are checked by kernel computation; model evaluation in the correspondence)",
@@ -29,6 +29,8 @@ ASSUMPTIONS = [
     "parameter names are distinct (the Generator classes key a dict by name)",
     "level values are non-NaN floats; |bounds| small enough that (l_b + u_b) does not overflow",
     "fullfact for zero factors raises TypeError in the code (np.prod([]) is a float); the theorems are stated for >= 1 factor",
+    "the generalized-subset-design theorems are conditional on build_gsd not raising (level counts >= 2, reduction >= 2); "
+    "C13_gsd_succeeds shows it does not raise for >= 2 factors when the reduction does not exceed any level count",
 ]
 
 HEADER = ("From Artap Require Import Run.C13Run.\nFrom Coq Require Import List ZArith Floats.\n"
@@ -276,7 +278,10 @@ def run(ctx):
         if any(x < 0 for d in designs for r in d for x in r):
             fail("generalized subset design has a negative level index", inp, "gsd")
             designs = [[[max(x, 0) for x in r] for r in d] for d in designs]
-        oracle_gsd(levels, reduction, designs, len(designs) == reduction, inp, "gsd")
+        if n >= reduction and len(designs) != reduction:
+            fail("build_gsd returned %d designs when all %d complementary designs were requested (n=%d)"
+                 % (len(designs), reduction, n), inp, "gsd")
+        oracle_gsd(levels, reduction, designs, n >= reduction, inp, "gsd")
         sizes["gsd:%d" % len(levels)] += 1
         push("gsd", case, designs_lit(designs), dict(inp, kind="gsd", rows=sum(len(d) for d in designs)), key)
 
@@ -379,9 +384,11 @@ LEVEL_TEXT = ("Machine-checked Coq theorems over an executable model of fullfact
               "helpers: the full factorial is duplicate-free and is exactly the Cartesian product for every factor count >= 1 and all level "
               "counts (induction); the Plackett-Burman construction (seed matrices, Kronecker doubling, column selection, flip) yields for "
               "every size 1..23 the stated run count, +/-1 entries, balanced and pairwise orthogonal columns (kernel computation over the "
-              "whole family) and rejects 24..27; the Box-Behnken design for every n >= 3 is duplicate-free and consists exactly of the +/- "
-              "corners of every factor pair with the other factors at mid level plus one centre run; the r complementary generalized subset "
-              "designs are duplicate-free, pairwise disjoint and cover the full factorial. The model is tied to the Generator classes and "
-              "doe.build_gsd on every run by comparing complete row lists, in order, for generated parameter sets.")
-LEVEL_NOTE = ("Trusted: Coq kernel + vm_compute; the hand-written model and the Python harness. Correspondence is sampled (corpus + generated "
-              "cases), the theorems are unbounded except pb_structure, whose bound 1..23 is the property's own.")
+              "whole family) and rejects 0 and 24..27; the Box-Behnken design for every n >= 3 is duplicate-free and consists exactly of the +/- "
+              "corners of every factor pair with the other factors at mid level plus one centre run; for every reduction r >= 2 and every "
+              "list of level counts >= 2 (induction over the column-augmentation loop, no size bound) the complementary generalized subset "
+              "designs are duplicate-free, pairwise disjoint subsets of the full factorial and the r of them cover it, whenever build_gsd "
+              "does not raise (it provably does not for >= 2 factors with r <= every level count). The model is tied to the Generator "
+              "classes and doe.build_gsd on every run by comparing complete row lists, in order, for generated parameter sets.")
+LEVEL_NOTE = ("Full (no partial theorem). Trusted: Coq kernel + vm_compute; the hand-written model and the Python harness. Correspondence is "
+              "sampled (corpus + generated cases); the theorems are unbounded except pb_structure, whose bound 1..23 is the property's own.")
